@@ -26,8 +26,14 @@ the per-disparity loops):
                     the pixel's interval of the I / G run, that run has the same winner
       refinement  : right after disparity + refinement (vfit / quadratic) every valid pixel stays inside
                     its own interval
-      pipelines   : random legal single-scale pipelines through pandora.run: every valid pixel of the final
-                    map lies in the global interval; stored disparity_interval
+      pipelines   : random legal single-scale pipelines through pandora.run (the old fixed shapes, and free tails:
+                    0..5 refinement / filter / validation steps in any order, repetitions with suffixes), the left
+                    products observed after the disparity step and after EVERY later step: every valid pixel holds a
+                    finite disparity of the global interval (C09_step_preserves_interval /
+                    C09_final_disp_in_global_interval), no pixel carries both bit 8 and bit 9 (the second half of the
+                    invariant of those theorems), a pixel is inside its OWN interval after the disparity step and after
+                    a refinement that directly follows it (C09_wta_then_refinement_within_pixel_interval); stored
+                    disparity_interval
   T-corr : the extracted model (build/x02, Model/MatchingCost.v) against the real volume of the I and G runs
            (every cost), so that the model the theorems speak about is the code's computation."""
 import math
@@ -41,7 +47,7 @@ from harness import mc_util as mu
 from harness import pandora_util as pu
 from harness.props import c02
 
-GEN = []
+GEN = ["gen_constants", "gen_refine_consts", "gen_valconst", "gen_callbacks"]
 EXTRACT_FILES = ["X02"]
 DRIVERS = ["x02"]
 RULE = ("one family = one image pair 5..12 x 7..16 (integer radiometry, masks with valid/nodata/invalid cells on "
@@ -50,7 +56,9 @@ RULE = ("one family = one image pair 5..12 x 7..16 (integer radiometry, masks wi
         "per-pixel grids inside J with min <= max, I again as constant grids (through a GeoTIFF + add_disparity for a "
         "share); every family is run without and (for 60%) with cbca aggregation, then WTA, then refinement. One "
         "evaluation = one comparison of two real runs (a volume pair, an axis pair, a disparity-map pair) or one "
-        "pipeline run; non-trivial when the compared volumes hold both NaN and finite costs and the two intervals "
+        "pipeline run (matching cost, optional cbca, WTA, then either one of the fixed shapes refinement/filter/validation/"
+        "filter.last/refinement.last or a free tail of 0..5 refinement / filter / validation steps in any order with "
+        "suffixed repetitions; scalar interval or per-pixel grids; the left products are observed after every step); non-trivial when the compared volumes hold both NaN and finite costs and the two intervals "
         "differ; distinct by (relation, measure, window, subpix, aggregation, the two intervals, image hash)")
 ASSUMES = [
     "integer radiometry and integer disparity grids (exact domain of the C02 correspondence); both images have the "
@@ -59,8 +67,12 @@ ASSUMES = [
     "whatever the interval (this is what the theorems say of the model: the cell is a function of the sample)",
     "zncc: the model cell is the exact triple (cov, varL, varR); the float value is compared with "
     "cov/sqrt(varL*varR) under the bridging tolerance in the T-corr part only",
-    "the steps after the disparity step preserve 'valid pixels lie in the global interval' (C06, C10, C07, C14): "
-    "hypothesis of C09_final_disp_in_global_interval_partial, checked here on real pipeline runs only",
+    "last clause: the theorems compose the step models of C06 / C10 / C07 / C14 (Model/IntervalPipeline.v); each of "
+    "those models is tied to the code by its own property's correspondence, the composition (which products each "
+    "callback of the state machine hands to which step) by the pipeline sweep of this module, which observes the real "
+    "left products after every step",
+    "the bilateral kernels have no negative weight and a positive self-weight (kernel_ok: hypothesis of "
+    "step_ok, checked on the kernels of every real run by harness/props/c10.py); filter_size is odd (check_conf)",
 ]
 TRUSTED = ["numpy / xarray slicing semantics used by the oracles (np.array_equal with equal_nan)",
            "rasterio GeoTIFF write/read of the grid files (decoding is C16's)"]
@@ -463,6 +475,33 @@ def gen_pipeline(rng, measure, subpix):
     return p
 
 
+def gen_free_pipeline(rng, measure, subpix):
+    """matching cost, optional cbca, WTA, then a FREE tail: 0..5 refinement / filter / validation steps in any order,
+    repetitions included (suffixed names), any method: the quantifier of C09_final_disp_in_global_interval"""
+    win = rng.choice([3, 5]) if measure == "census" else rng.choice([1, 3, 5])
+    p = [["matching_cost", {"matching_cost_method": measure, "window_size": win, "subpix": subpix}]]
+    if rng.random() < 0.25:
+        p.append(["aggregation", {"aggregation_method": "cbca", "cbca_intensity": 5.0, "cbca_distance": 3}])
+    p.append(["disparity", {"disparity_method": "wta", "invalid_disparity": rng.choice([-9999, "NaN"])}])
+    seen = {}
+    for _ in range(rng.randrange(0, 6)):
+        kind = rng.choice(["refinement", "refinement", "filter", "filter", "validation"])
+        if kind == "refinement":
+            c = {"refinement_method": rng.choice(["vfit", "quadratic"])}
+        elif kind == "filter":
+            c = rng.choice([{"filter_method": "median", "filter_size": rng.choice([3, 3, 5])},
+                            {"filter_method": "bilateral", "sigma_color": rng.choice([1.0, 2.0, 4.0]),
+                             "sigma_space": rng.choice([0.5, 1.0, 1.5])}])
+        else:
+            c = {"validation_method": "cross_checking_accurate", "cross_checking_threshold": rng.choice([0.0, 1.0, 1.0])}
+            if rng.random() < 0.7:
+                c["interpolated_disparity"] = rng.choice(["mc-cnn", "sgm"])
+        n = seen.get(kind, 0)
+        seen[kind] = n + 1
+        p.append([kind if n == 0 else f"{kind}.{n}", c])
+    return p
+
+
 def off_grid_refinement(pipeline):
     """a refinement step that runs after a filter or a validation step (the disparities it refines are no
     longer coordinates of the axis): the class of the recorded finding"""
@@ -476,7 +515,7 @@ def off_grid_refinement(pipeline):
     return False
 
 
-def gen_pipeline_case(rng):
+def gen_pipeline_case(rng, free=False):
     fam = gen_family(rng)
     fam["rows"], fam["cols"] = max(fam["rows"], 7), max(fam["cols"], 9)
     rows, cols = fam["rows"], fam["cols"]
@@ -492,9 +531,74 @@ def gen_pipeline_case(rng):
         gmin = [[rng.randrange(a, b + 1) for _ in range(cols)] for _ in range(rows)]
         gmax = [[rng.randrange(gmin[r][c], b + 1) for c in range(cols)] for r in range(rows)]
         grids = [gmin, gmax]
+    gen = gen_free_pipeline if free else gen_pipeline
     return {"kind": "pipeline", "fam": {k: fam[k] for k in ("measure", "window", "subpix", "rows", "cols", "left", "right",
                                                           "mask_l", "mask_r")},
-            "disp": [a, b], "grids": grids, "pipeline": gen_pipeline(rng, fam["measure"], fam["subpix"])}
+            "disp": [a, b], "grids": grids, "pipeline": gen(rng, fam["measure"], fam["subpix"])}
+
+
+POST_KINDS = ("disparity", "refinement", "filter", "validation")
+
+
+def observing_machine():
+    """a PandoraMachine that records the LEFT disparity products (map, mask) after the disparity step and after
+    every later step (callbacks wrapped on the instance, nothing changed in /repo)"""
+    from pandora.state_machine import PandoraMachine
+
+    m = PandoraMachine()
+    m.snaps = []
+    m.rsnaps = []
+    for kind in POST_KINDS:
+        cb = kind + "_run"
+        orig = getattr(m, cb)
+
+        def wrapper(cfg, input_step, _orig=orig, _m=m):
+            res = _orig(cfg, input_step)
+            ld = _m.left_disparity
+            _m.snaps.append((input_step, ld["disparity_map"].data.copy(), ld["validity_mask"].data.copy()))
+            rd = _m.right_disparity
+            if rd is not None and "disparity_map" in rd and "validity_mask" in rd:
+                _m.rsnaps.append((input_step, rd["disparity_map"].data.copy(), rd["validity_mask"].data.copy()))
+            return res
+
+        setattr(m, cb, wrapper)
+    return m
+
+
+def check_snapshots(ctx, pc, names, snaps, dmin, dmax, gmin, gmax, fam, side="left"):
+    """the invariant of C09_step_preserves_interval after every step, the per-pixel clause where it applies.
+    side = "right": the right products (cross_checking_accurate), whose steps are the same functions applied to the
+    right map with the left one as reference: the same theorems with the interval [-dmax, -dmin] of the right volume"""
+    gmin, gmax = np.array(gmin, dtype=np.float64), np.array(gmax, dtype=np.float64)
+    prev = None
+    for step, d, vm in snaps:
+        kind = ("right_" if side == "right" else "") + step.split(".")[0]
+        ctx.count("pipeline_states_checked" if side == "left" else "pipeline_right_states_checked")
+        valid = (vm & INVALID_BITS) == 0
+        with np.errstate(invalid="ignore"):
+            inside = np.isfinite(d) & (d >= dmin) & (d <= dmax)
+        out = valid & ~inside
+        head = (f"pipeline {names} ({fam['measure']}, subpix {fam['subpix']}) on {fam['rows']}x{fam['cols']}, interval "
+                f"[{dmin},{dmax}]: {side} products after step '{step}' ")
+        if out.any():
+            r, c = [int(x) for x in np.argwhere(out)[0]]
+            ctx.violation("step_leaves_interval_" + kind,
+                          head + f"the valid pixel ({r},{c}) (flags {int(vm[r, c])}) holds {_f(d[r, c])}", pc)
+        both = ((vm & 256) != 0) & ((vm & 512) != 0)
+        if both.any():
+            r, c = [int(x) for x in np.argwhere(both)[0]]
+            ctx.violation("occlusion_and_mismatch_" + kind, head + f"pixel ({r},{c}) carries both bit 8 and bit 9 "
+                          f"(flags {int(vm[r, c])})", pc)
+        if side == "left" and (kind == "disparity" or (kind == "refinement" and prev == "disparity")):
+            with np.errstate(invalid="ignore"):
+                own = valid & ~((d >= gmin) & (d <= gmax))
+            ctx.count("pipeline_own_interval_checked")
+            if own.any():
+                r, c = [int(x) for x in np.argwhere(own)[0]]
+                ctx.violation("outside_own_interval_after_" + kind,
+                              head + f"the valid pixel ({r},{c}) holds {_f(d[r, c])}, outside its own interval "
+                              f"[{_f(gmin[r, c])},{_f(gmax[r, c])}]", pc)
+        prev = kind
 
 
 def run_pipeline_case(ctx, pc):
@@ -516,8 +620,9 @@ def run_pipeline_case(ctx, pc):
     ctx.count("pipelines")
     for n in names:
         ctx.count("pipeline_step_" + n.split(".")[0])
+    machine = observing_machine()
     try:
-        l, _ = pandora.run(PandoraMachine(), left, right, cfg)
+        l, _ = pandora.run(machine, left, right, cfg)
     except Exception as exc:  # pylint: disable=broad-except
         ctx.case(None)
         ctx.count("pipeline_raised_" + type(exc).__name__)
@@ -530,6 +635,9 @@ def run_pipeline_case(ctx, pc):
     ctx.case(("pipeline", tuple(names), fam["measure"], fam["subpix"], dmin, dmax, hash(str(fam["left"])))
              if valid.any() and len(names) > 2 else None)
     ctx.count("pipeline_valid_pixels", int(valid.sum()))
+    check_snapshots(ctx, pc, names, machine.snaps, dmin, dmax, gmin, gmax, fam)
+    if machine.rsnaps:
+        check_snapshots(ctx, pc, names, machine.rsnaps, -dmax, -dmin, gmin, gmax, fam, side="right")
     iv = [float(x) for x in l["disparity_interval"].data]
     if iv != [float(dmin), float(dmax)]:
         ctx.violation("stored_interval", f"pipeline {names}: stored disparity_interval {iv}, requested [{dmin},{dmax}]", pc)
@@ -549,6 +657,11 @@ def run_pipeline_case(ctx, pc):
 
 def run(ctx):
     quick = ctx.tier == "quick"
+    ctx.gen_obligations = ["C09_pipeline_constants: the invalid-bits / stopped-interpolation / interval-regularized "
+                           "constants of Gen.RefineConsts, Gen.Constants, Gen.ValConst are those the composed step models "
+                           "use, 1 <= median_block, 1 <= bilateral_block (reflexivity / vm_compute on the regenerated files)",
+                           "C09_callbacks_as_composed: Gen.Callbacks.gen_callback of filter_run / refinement_run / validation_run "
+                           "(ast of state_machine.py) is the call structure run_step composes (reflexivity)"]
     rng = ctx.rng
     model = core.Model("x02")
     if ctx.replay_case is not None:
@@ -582,6 +695,6 @@ def run(ctx):
         for pc in json.load(open(corpus)):
             ctx.count("corpus_pipelines")
             run_pipeline_case(ctx, pc)
-    for _ in range(36 if quick else 3000):
-        run_pipeline_case(ctx, gen_pipeline_case(rng))
+    for i in range(44 if quick else 3000):
+        run_pipeline_case(ctx, gen_pipeline_case(rng, free=(i % 2 == 1)))
     ctx.stats["model_calls"] = model.calls
